@@ -9,6 +9,7 @@ import Balm.Impl.Nfvs
 import Balm.Impl.Block
 import Balm.Impl.ASeeds
 import Balm.Impl.SymLoop
+import Balm.Impl.Scc
 import Balm.TransNet
 /-!
 # `balmdriver` – line protocol between the Python harness and the Lean model
@@ -77,6 +78,7 @@ structure Session where
   diag : Diag n
   atts : Option (List (List (State n)))
   exprs : Vector BExpr n
+  ranks : List Nat := []
 
 def showOutcome : Outcome → String
   | .ok true => "true"
@@ -396,6 +398,13 @@ def handle (S : Session) (toks : List String) : Session × String :=
       let (d, o) := expandBlock S.ctx S.diag sz
       ({ S with diag := d }, showOutcome o ++ " " ++ dumpDiag d)
     | none => bad
+  | "RANKS" :: rs => match rs.mapM (fun (t : String) => t.toNat?) with
+    | some l => ({ S with ranks := l }, "OK")
+    | none => bad
+  | ["SCC"] =>
+    let rank : Fin n → Nat := fun i => S.ranks[i.val]?.getD i.val
+    let (d, o) := expandScc rank (n + 2) S.ctx S.diag
+    ({ S with diag := d }, showOutcome o ++ " " ++ dumpDiag d)
   | "FALLBACK" :: sp :: succs => match parseSpace n sp, parseSpaces n succs with
     | some p, some qs => (S, String.intercalate " / " (sortStrs ((fallbackAttrs N p qs).map showAttr)))
     | _, _ => bad
